@@ -14,7 +14,7 @@ from ..solver import run as solve
 from .c05 import CleanMachine
 from .common import Summaries, areas, in_area, origin, root_name, write_policy
 from .funnel import FUNNEL, FunnelMachine, funnel_policy, yield_meta_type
-from .machines import LooseMachine, PackMachine, explore, report_violations
+from .machines import path_operand, LooseMachine, PackMachine, explore, report_violations
 
 
 class LazyOpenMachine(Machine):
@@ -335,7 +335,7 @@ def clean_sites(ctx, chk, g):
         for e in E.of(n):
             if e[0] == 'UNLINK' and in_area(K, e[1], 'loose') and n.frame is g.top:
                 unlinks.add(n.id)
-                ke = loose_key_expr(K, n.ast.args[0], n.frame)
+                ke = loose_key_expr(K, path_operand(n.ast), n.frame)
                 chk.require(ke is not None, f'{n.where}: cannot find the hash key of the unlinked loose path')
                 names = {r[2] for r in (root_name(o) for o in origin(K, ke[0], ke[1]) if o[0] == 'elem') if r and r[0] == 'name'}
                 for m2 in g.nodes:
